@@ -671,6 +671,7 @@ SETUPS = {
     # an explicit default of 0 (with /MissingWidth 700 in the descriptor, which must play no role)
     "H-dw0": dict(enc="Identity-H", w=[1, [250]], dw=0),
     "V-dw0": dict(enc="Identity-V", w2=[1, [-500, 300, 700]], dw2=[880, 0]),
+    "V-zero": dict(enc="Identity-V", w2=[1, [-500, 0, 700], 2, 2, 0, 300, 0]),
     # text-state parameters (font size 10: Tc 0.5 = 50, Tw 2 = 200 thousandths of the font size; Tz 200 = scale 2)
     "H-ts": dict(enc="Identity-H", w=[1, [250], 2, 2, 600], dw=500, pre=b"0.5 Tc 2 Tw 200 Tz 3 Ts"),
     "V-ts": dict(enc="Identity-V", w2=[1, [-500, 300, 700], 3, 3, -750, 500, 880], pre=b"0.5 Tc 2 Tw 3 Ts"),
@@ -681,7 +682,7 @@ SETUPS = {
 def direction_a_placement(ck, fut):
     from ..realise import fontpdf as fp
     res, emit = fut
-    ck.add_tlc(res, "Placement: 12 setups (2 real-valued, 2 with default 0, 3 with Tc/Tw/Tz/Ts) x strings <= 3 over CIDs {1,2,3,32}")
+    ck.add_tlc(res, "Placement: 13 setups (2 real-valued, 2 with default 0, 1 with zero components, 3 with Tc/Tw/Tz/Ts) x strings <= 3 over CIDs {1,2,3,32}")
     if not res.ok:
         return model_violation(ck, res, "Placement")
     require_coverage(res, ["AShow"])
@@ -714,6 +715,13 @@ def direction_a_placement(ck, fut):
                     at = m["at"] / den * 0.001 * FS
                     adv = m["adv"] / den * 0.001 * FS
                     if vertical and not (close(g[1], adv) and close(g[2][5], y0 + at) and close(g[2][4], 100)):
+                        return False
+                    # the glyph BOX: its left edge is the origin moved by the position vector's x (half the font size when
+                    # the font gives none), and it is one font size wide (sc: the box of a scaled font is not stretched in x
+                    # by a vertical advance)
+                    vx = m["disp"][0]
+                    x0 = 100 - (FS * 0.5 if vx == -1 else vx / den * 0.001 * FS)
+                    if vertical and not (close(g[3][0], x0) and close(g[3][2], x0 + FS)):
                         return False
                     if not vertical and not (close(g[1], adv) and close(g[2][4], 100 + at) and close(g[2][5], y0)):
                         return False
